@@ -81,6 +81,10 @@ type replay struct {
 	RunHash  string         `json:"run_hash,omitempty"`
 	Shrunk   map[string]any `json:"minimisation,omitempty"`
 	Go       string         `json:"go_version"`
+	// RunList: the violation depends on what the PROCESS executed before
+	// (state the library keeps outside its engines): the replay is this
+	// list of run indices executed in order in one fresh process.
+	RunList []uint64 `json:"run_list,omitempty"`
 }
 
 type stats struct {
@@ -394,7 +398,16 @@ func handleViolation(v *replay, ph phase, scratch string, ev *evidence) int {
 		trouble("%v", err)
 	}
 	if !core.SameClass(ro.Class, v.Class) {
-		trouble("violation %q of run %d did not reproduce in a fresh process (got %q): harness nondeterminism, not reported as a violation; file kept at %s", v.Class, v.Run, ro.Class, path)
+		// Not a function of this run alone.  Either the harness is not
+		// deterministic - or the library keeps state outside its engines
+		// (package-level caches) and the run was influenced by the runs the
+		// same worker process executed before it.  The second case is
+		// decided by re-executing that worker's whole sequence of runs in
+		// one fresh process.
+		if code, done := processHistoryViolation(v, ph, scratch, path, ev); done {
+			return code
+		}
+		trouble("violation %q of run %d did not reproduce in a fresh process (got %q), neither alone nor after the runs its worker had executed before it: harness nondeterminism, not reported as a violation; file kept at %s", v.Class, v.Run, ro.Class, path)
 	}
 	// minimise
 	args := []string{"-shrink", path}
@@ -444,6 +457,82 @@ func handleViolation(v *replay, ph phase, scratch string, ev *evidence) int {
 	fmt.Printf("violation class: %s\n%s\n", final.Class, tail(firstN(final.Detail, 4000), 4000))
 	fmt.Printf("VIOLATION property=%s replay=%s\n", *fProp, path)
 	return 1
+}
+
+// runListOutcome executes the given run indices in order in ONE fresh worker
+// process and returns the violation it stopped at, if any.
+func runListOutcome(ph phase, scratch string, list []uint64) *replay {
+	strs := make([]string, len(list))
+	for i, v := range list {
+		strs[i] = strconv.FormatUint(v, 10)
+	}
+	cmd := workerCmd(ph, scratch, "-runlist", strings.Join(strs, ","), "-samples", "0")
+	if ph.Race {
+		lp := filepath.Join(scratch, fmt.Sprintf("race-runlist-%d", time.Now().UnixNano()))
+		cmd.Args = append(cmd.Args, "-racelog", lp)
+		cmd.Env = append(cmd.Env, "GORACE=halt_on_error=0 log_path="+lp)
+	}
+	b, err := cmd.Output()
+	st := &stats{}
+	if jerr := json.Unmarshal(b, st); jerr != nil || err != nil {
+		return nil
+	}
+	return st.Violation
+}
+
+// processHistoryViolation handles a violation that is a function of the
+// worker process's history rather than of one run.
+func processHistoryViolation(v *replay, ph phase, scratch, path string, ev *evidence) (int, bool) {
+	w := v.Run % uint64(ph.Workers)
+	var list []uint64
+	for i := w; i <= v.Run; i += uint64(ph.Workers) {
+		list = append(list, i)
+	}
+	same := func(l []uint64) bool {
+		got := runListOutcome(ph, scratch, l)
+		return got != nil && got.Run == v.Run && core.SameClass(got.Class, v.Class)
+	}
+	if !same(list) {
+		return 0, false
+	}
+	// minimise the history: drop chunks of earlier runs while the last run
+	// still fails in the same way (each test is one fresh process)
+	tests := 0
+	for size := len(list) / 2; size >= 1 && tests < 60; size /= 2 {
+		for start := 0; start+size < len(list) && tests < 60; {
+			cand := append(append([]uint64(nil), list[:start]...), list[start+size:]...)
+			tests++
+			if same(cand) {
+				list = cand
+				continue
+			}
+			start += size
+		}
+	}
+	final := *v
+	final.RunList = list
+	final.Shrunk = map[string]any{"process_history_runs_before": int(v.Run/uint64(ph.Workers)) + 1, "process_history_runs_after": len(list), "fresh_processes_used": tests + 1}
+	fb, _ := json.MarshalIndent(&final, "", " ")
+	os.WriteFile(path, fb, 0o644)
+	for _, k := range loadKnown() {
+		if k.Property != *fProp || k.Status != "known" {
+			continue
+		}
+		cm, _ := regexp.MatchString(k.Class, final.Class)
+		dm := true
+		if k.Detail != "" {
+			dm, _ = regexp.MatchString(k.Detail, final.Detail)
+		}
+		if cm && dm {
+			fmt.Printf("KNOWN-FINDING: property=%s %s\n", *fProp, k.What)
+			ev.known++
+			return 0, true
+		}
+	}
+	ev.violations = 1
+	fmt.Printf("violation class: %s (depends on the history of the process: replay executes runs %v in one fresh process)\n%s\n", final.Class, list, firstN(final.Detail, 4000))
+	fmt.Printf("VIOLATION property=%s replay=%s\n", *fProp, path)
+	return 1, true
 }
 
 func firstN(s string, n int) string {
